@@ -6,6 +6,7 @@ Model driver for C06 (trajectory decoding).
 
     traj  <ref|-> <report> <report> … [@ …]     update_reference = None           (fixed receiver reference)
     traju <ref|-> <report> <report> … [@ …]     update_reference = Some(|m| low)  (the callers' altitude test)
+    trajd <ref|-> <report> <report> … [@ …]     the same model (decode1090's closure `alt < 1000`; `low` = its answer)
 
     <ref>     `lat,lon` (two exact rationals) or `-` (no receiver reference)
     <report>  `t:addr:kind:parity:yz:xz[:low]`   t exact rational seconds (the harness uses k/1024),
@@ -107,6 +108,10 @@ def handle : List String → Option String
     let h ← parseReports rest
     pure (showOuts (decodePositions Gates.source distF none ref h))
   | "traju" :: ref :: rest => do
+    let ref ← parseRef ref
+    let h ← parseReports rest
+    pure (showOuts (decodePositions Gates.source distF (some (·.low)) ref h))
+  | "trajd" :: ref :: rest => do
     let ref ← parseRef ref
     let h ← parseReports rest
     pure (showOuts (decodePositions Gates.source distF (some (·.low)) ref h))
